@@ -498,23 +498,44 @@ def _roundtrip(db, rep, rule_prefix=''):
         if isinstance(v, tuple):
             return '(' + ', '.join(show(x) for x in v) + ')'
         return str(v)
+    # The decoder knows one reserved count ("unknown number of rows"). When that constant lies inside the range of real cardinalities the
+    # round trip must also hold for a set of exactly that size; the constant is far too large to build such a set, so the whole family is
+    # evaluated a second and third time with the constant scaled down to 2 and 3 (the code may only use it as a constant).
+    marker_qn = O_ + 'SDCompact::unknownCount'
+    mk = db.fn(marker_qn + '::<init>', required=False)
+    inf = db.fn(O_ + 'StructuredData::SET_INFINITY::<init>', required=False)
+    scales = [None]
+    if mk is not None and inf is not None:
+        mv = Interp(db).eval(mk, mk.stmts[mk.body], {})
+        iv = Interp(db).eval(inf, inf.stmts[inf.body], {})
+        if isinstance(mv, int) and isinstance(iv, int) and 0 <= mv <= iv:
+            scales += [2, 3]
+        rep.note('r3_reserved_count', {'value': mv, 'inside_cardinality_range': 0 <= mv <= iv if isinstance(mv, int) and isinstance(iv, int) else None})
+
+    def mkint(scale):
+        it_ = Interp(db, on_call=on_call, max_steps=200000)
+        if scale is not None:
+            it_.const_override = {marker_qn: scale}
+        return it_
     try:
+      for scale in scales:
         for t, values in family:
             for v in values:
                 cases += 1
                 pk = Obj(compact=[[]])
-                table = Interp(db, on_call=on_call, max_steps=200000).call(pack, [V(v), Tm(t)], pk)
+                table = mkint(scale).call(pack, [V(v), Tm(t)], pk)
                 table = [list(r) for r in table]
                 up = Obj(input=table, pos_x=0, pos_y=0)
                 try:
-                    back = Interp(db, on_call=on_call, max_steps=200000).call(unpack, [Tm(t)], up)
+                    back = mkint(scale).call(unpack, [Tm(t)], up)
                 except OutOfFragment as e:
                     if str(e).startswith(('call to', 'expression kind', 'statement kind', 'unbound', 'field')):
                         raise
                     back = ('fault', str(e))
                 got = back['v'] if isinstance(back, Obj) and 'v' in back else back
                 if got != v and bad is None:
-                    bad = 'value %s of type %s packs to %s and unpacks to %s' % (show(v), C03._show_t(t), table, 'nothing' if got is None else ('a fault: %s' % got[1] if isinstance(got, tuple) and got and got[0] == 'fault' else show(got)))
+                    bad = 'value %s of type %s packs to %s and unpacks to %s%s' % (show(v), C03._show_t(t), table, 'nothing' if got is None else ('a fault: %s' % got[1] if isinstance(got, tuple) and got and got[0] == 'fault' else show(got)),
+                                                                                 '' if scale is None else ' when the reserved count SDCompact::unknownCount is scaled to %d: a set with exactly unknownCount elements is read as "all remaining rows"' % scale)
     except OutOfFragment as e:
         r3.broken('packer/unpacker outside the evaluable fragment: %s' % e)
         return
